@@ -692,6 +692,18 @@ void run_one(const run_cfg_t& cfg, solver_t& solver, const function_t& inner, co
     {
         fail(cfg.id, "non-finite-result-without-failed-status status=" + std::to_string(st) + " fx=" + vh::hexf(state.fx()));
     }
+    // repo commit 85997bc: `converged` is only reported by a done(state, iter_ok = true, converged = true) call -- a failed
+    // iteration (e.g. a failed line search ending on a point that happens to pass the stopping criterion) is `failed`
+    if (st == 1)
+    {
+        const ev_rec_t* last = nullptr;
+        for (const auto& e : g_events)
+            if (e.level == 0 && e.closed && e.ret) last = &e;
+        if (!last || !last->iter_ok || !last->conv)
+        {
+            fail(cfg.id, std::string("converged-after-failed-iteration last_done=") + (last ? (std::string("iter_ok:") + (last->iter_ok ? "1" : "0") + ",conv:" + (last->conv ? "1" : "0")) : "none"));
+        }
+    }
     // not worse than the start, in the solver's documented class
     const bool in_class = ls ? inner.smooth() : (cfg.solver == "rqb" ? inner.convex() : true);
     // (a non-finite result is reported by the clause above, not a second time here)
@@ -812,6 +824,41 @@ void configure(vh::rng_t& r, solver_t& solver, run_cfg_t& cfg, const bool ls)
 }
 
 const tensor_size_t kDims[] = {1, 2, 3, 4, 5, 8, 16, 32};
+
+// targeted family T3 (repo commit 85997bc): a line search that FAILS on a point passing the stopping criterion -- stiff convex
+// quadratic (curvature 1e2..1e3: the unit first step overshoots to a value ~1e6 times the start, where |g| / max(1, |f|) ~ 2 / distance
+// is below a loose epsilon), lsearchk with max_iterations 1..3 (lemarechal / fletcher give up at once). The run must end `failed`.
+void run_t3(vh::rng_t& r, const long id, const solver_desc_t& sd, long& runs)
+{
+    run_cfg_t cfg;
+    cfg.id     = id;
+    cfg.solver = sd.id;
+    cfg.kind   = sd.kind;
+    cfg.type   = sd.type;
+    cfg.eps    = r.range(0, 1) ? 0.1 : log_uniform(r, 1e-2, 1e-1);
+    cfg.maxev  = r.range(20, 200);
+    cfg.radius = log_uniform(r, 0.1, 5.0);
+    const auto n = kDims[r.range(0, 4)];
+    auto       q = quad_function_t{r, static_cast<int>(n), log_uniform(r, 1, 30), log_uniform(r, 1e2, 1e3), true};
+    static const char* lk[] = {"lemarechal", "fletcher", "backtrack", "morethuente"};
+    static const char* l0[] = {"constant", "linear", "quadratic"};
+    cfg.lsk     = lk[r.range(0, 3)];
+    cfg.ls0     = l0[r.range(0, 2)];
+    cfg.c1      = 1e-4;
+    cfg.c2      = r.range(0, 1) ? 0.1 : 0.9;
+    cfg.fname   = "vquad/T3";
+    auto solver = make_solver_by_id(sd.id);
+    solver->parameter("solver::epsilon")   = cfg.eps;
+    solver->parameter("solver::max_evals") = cfg.maxev;
+    solver->parameter("solver::tolerance") = std::make_tuple(cfg.c1, cfg.c2);
+    solver->lsearch0(cfg.ls0);
+    auto lsk = lsearchk_t::all().get(cfg.lsk);
+    lsk->parameter("lsearchk::max_iterations") = static_cast<int64_t>(r.range(1, 3));
+    solver->lsearchk(*lsk);
+    const auto x0 = make_x0(r, n, cfg.radius);
+    run_one(cfg, *solver, q, x0, true);
+    ++runs;
+}
 
 } // namespace
 
@@ -934,6 +981,16 @@ int main(int argc, char** argv)
                 }
             }
         }
+        for (const auto& sd : solvers)
+        {
+            if (sd.type != "ls") continue;
+            for (long k = 0; k < (thorough ? 40 : 4); ++k, ++id)
+            {
+                vh::rng_t r(seed * 1000003ULL + static_cast<uint64_t>(id) * 7919ULL + 23);
+                if (only >= 0 && id != only) continue;
+                run_t3(r, id, sd, runs);
+            }
+        }
         // the three constrained solvers on box / linear-equality constrained smooth convex functions
         static const char* cs[] = {"linear-penalty", "quadratic-penalty", "augmented-lagrangian"};
         const long         per_c = thorough ? 150 : 10;
@@ -1047,6 +1104,17 @@ int main(int argc, char** argv)
                 }
                 run_one(cfg, *solver, *fn, x0, true);
                 ++runs;
+            }
+        }
+        // C01 (c): targeted family T3 -- `converged` is never reported after a failed line search (repo commit 85997bc)
+        for (const auto& sd : solvers)
+        {
+            if (sd.type != "ls") continue;
+            for (long k = 0; k < (thorough ? 40 : 4); ++k, ++id)
+            {
+                vh::rng_t r(seed * 1000003ULL + static_cast<uint64_t>(id) * 7919ULL + 23);
+                if (only >= 0 && id != only) continue;
+                run_t3(r, id, sd, runs);
             }
         }
     }
